@@ -17,7 +17,7 @@ def spec_enc(cs):
 class C17(Prop):
     pid = "C17"
     lean_targets = ["M17.Props.C17"]
-    theorems = ["M17.C17.gen_alphabet", "M17.C17.gen_broadcast", "M17.C17.encode_value", "M17.C17.roundtrip",
+    theorems = ["M17.C17.gen_alphabet", "M17.C17.gen_broadcast", "M17.C17.encode_value", "M17.C17.encodeStrict_spec", "M17.C17.roundtrip",
                 "M17.C17.encode_injective", "M17.C17.decode_broadcast", "M17.C17.encode_valid_ne_broadcast", "M17.C17.decode_terminated"]
     level_text = ("Lean 4 theorems: for every callsign of 1-9 alphabet characters decode(encode) returns the same 10-byte call_t (base-40 "
                   "Horner induction; no uint64 wrap), hence encode is injective and never yields the broadcast address; the all-ones "
@@ -64,6 +64,32 @@ class C17(Prop):
             if a in seen and seen[a] != cs:
                 ctx.violate(f"call-enc:collision:{cs}", f"{cs!r} and {seen[a]!r} get the same address [{a}]", {"stream": "call-enc", "ops": []})
             seen[a] = cs
+        # strict mode (encodeStrict_spec): a full 10-character array of alphabet characters gives the non-strict address, anything else -
+        # NUL padding of a shorter callsign included - throws invalid_argument
+        st_lines, st_want = [], []
+        for _ in range(600 if quick else 6000):
+            k = rng.random()
+            if k < 0.4:
+                cs = [ord(rng.choice(ALPHA)) for _ in range(10)]
+            elif k < 0.7:
+                cs = [ord(rng.choice(ALPHA)) for _ in range(rng.randrange(0, 10))]
+            else:
+                cs = [ord(rng.choice(ALPHA)) for _ in range(10)]
+                cs[rng.randrange(10)] = rng.choice([0, 32, 97, 122, 64, 91, 58, 44, 255, rng.randrange(256)])
+            st_lines.append("call_enc_s " + " ".join(map(str, cs)))
+            ok = len(cs) == 10 and all(chr(c) in ALPHA for c in cs)
+            v10 = 0
+            for c in reversed(cs):
+                v10 = v10 * 40 + (SPEC_ALPHA.index(chr(c)) if ok else 0)
+            st_want.append(" ".join(map(str, (v10 % 2 ** 48).to_bytes(6, "big"))) if ok else "throw")      # ten digits: the low 48 bits of the value
+        st_impl = ctx.run_impl(exe, st_lines, "call-enc-strict")
+        for ln, a, w in zip(st_lines, st_impl, st_want):
+            ctx.count(ln, nontrivial=True)
+            ctx.stat("enc-strict:" + ("throw" if w == "throw" else "ok"))
+            if a != w and a != "<crash>":
+                ctx.violate("call-enc-strict", f"encode_callsign({ln.split()[1:]}, strict) gave `{a}`, documented behaviour is `{w}`", {"stream": "call-enc-strict", "ops": [ln], "impl": a})
+        if ctx.model_ok:
+            ctx.compare("call-enc-strict", st_lines, st_impl, ctx.run_model(st_lines), oracle=lambda ln, a: None, sig=lambda ln: "strict")
         # decode what the implementation encoded (round trip) + boundary/hostile addresses
         addrs = [a for a in impl[:len(calls)] if a != "<crash>"]
         vals = [0, 1, 39, 2 ** 48 - 1, 2 ** 48 - 2]
